@@ -32,6 +32,7 @@ type mutant struct {
 	Desc   string       `json:"desc"`
 	Expect string       `json:"expect_rule,omitempty"`
 	Edits  []mutantEdit `json:"edits"`
+	Patch  string       `json:"patch,omitempty"` // unified diff (path relative to the verif dir), applied with git apply
 }
 
 type mutantResult struct {
@@ -71,6 +72,29 @@ func runSelfValidation(prop, repo, verif string, res *Result) {
 		}
 		muts = append(muts, ms...)
 	}
+	// independently seeded defects kept under seeded/<id>/ are break variants too
+	metas, _ := filepath.Glob(filepath.Join(verif, "seeded", prop+"-*", "meta.json"))
+	sort.Strings(metas)
+	for _, mf := range metas {
+		b, err := os.ReadFile(mf)
+		if err != nil {
+			continue
+		}
+		var meta struct {
+			ID         string   `json:"id"`
+			Change     string   `json:"change"`
+			DetectedBy []string `json:"detected_by"`
+			Status     string   `json:"status"`
+		}
+		if json.Unmarshal(b, &meta) != nil || meta.ID == "" {
+			continue
+		}
+		m := mutant{Name: "seeded-" + meta.ID, Kind: "break", Desc: meta.Change, Patch: filepath.Join(filepath.Dir(mf), "patch.diff")}
+		if meta.Status == "missed" {
+			m.Kind = "break-documented-miss"
+		}
+		muts = append(muts, m)
+	}
 	results := make([]mutantResult, len(muts))
 	sem := make(chan struct{}, 6)
 	var wg sync.WaitGroup
@@ -84,7 +108,7 @@ func runSelfValidation(prop, repo, verif string, res *Result) {
 		}(i)
 	}
 	wg.Wait()
-	det, miss, silent, fa, skipped := 0, 0, 0, 0, 0
+	det, miss, silent, fa, skipped, docMiss := 0, 0, 0, 0, 0, 0
 	for _, r := range results {
 		switch r.Outcome {
 		case "detected":
@@ -95,6 +119,8 @@ func runSelfValidation(prop, repo, verif string, res *Result) {
 			silent++
 		case "false-alarm":
 			fa++
+		case "documented-miss":
+			docMiss++
 		default:
 			skipped++
 		}
@@ -105,6 +131,7 @@ func runSelfValidation(prop, repo, verif string, res *Result) {
 	res.Extra["refactors_silent"] = silent
 	res.Extra["refactors_false_alarm"] = fa
 	res.Extra["variants_skipped"] = skipped
+	res.Extra["seeded_documented_misses"] = docMiss
 	fmt.Printf("%s self-validation: %d break variant(s) detected, %d missed; %d refactor variant(s) silent, %d false alarm(s); %d skipped\n",
 		prop, det, miss, silent, fa, skipped)
 	for _, r := range results {
@@ -156,6 +183,14 @@ func runMutant(self, prop, repo, verif string, m mutant) mutantResult {
 			return out
 		}
 	}
+	if m.Patch != "" {
+		ap := exec.Command("git", "apply", "--whitespace=nowarn", m.Patch)
+		ap.Dir = tmp
+		if b, err := ap.CombinedOutput(); err != nil {
+			out.Outcome, out.Detail = "skipped", "patch does not apply to the current tree: "+strings.TrimSpace(string(b))
+			return out
+		}
+	}
 	cmd := exec.Command(self, "-prop", prop, "-tier", "quick", "-repo", tmp, "-verif", verif, "-no-evidence")
 	cmd.Env = append(os.Environ(), "ECALCHECK_CHILD=1")
 	b, _ := cmd.CombinedOutput()
@@ -170,6 +205,14 @@ func runMutant(self, prop, repo, verif string, m mutant) mutantResult {
 		return out
 	}
 	switch m.Kind {
+	case "break-documented-miss":
+		if violated {
+			out.Outcome = "detected"
+			out.Detail = "documented as missed, now reported: " + firstLineWith(text, prop+" R")
+		} else {
+			out.Outcome = "documented-miss"
+			out.Detail = m.Desc
+		}
 	case "break":
 		if violated && (m.Expect == "" || strings.Contains(text, prop+" "+m.Expect)) {
 			out.Outcome = "detected"
